@@ -201,6 +201,7 @@ static void cb_log(const char *fmt, ...) { (void)fmt; }
 static rfbBool cb_malloc_guard(rfbClient *c);
 #endif
 static char *g_pw(rfbClient *c);
+static rfbCredential *g_cred(rfbClient *c, int type);
 /* ------------------------------------------------------------------ script */
 static int hexval(int c) { return c >= '0' && c <= '9' ? c - '0' : c >= 'a' && c <= 'f' ? c - 'a' + 10 : c >= 'A' && c <= 'F' ? c - 'A' + 10 : -1; }
 static size_t parse_hex(const char *s, unsigned char **out) {
@@ -290,6 +291,31 @@ static void do_run(void) {
 }
 
 static char *g_pw(rfbClient *c) { return strdup("secret"); }
+/* user name / password for the schemes that ask for them (Plain, MSLogon, ARD, SASL); no X509 material */
+static rfbCredential *g_cred(rfbClient *c, int type) {
+  rfbCredential *cr;
+  if (type != rfbCredentialTypeUser) return NULL;
+  cr = (rfbCredential *)calloc(1, sizeof *cr);
+  cr->userCredential.username = strdup("user"); cr->userCredential.password = strdup("secret");
+  return cr;
+}
+
+/* an application call between two messages: SendExtDesktopSize.  Of the rfbExtDesktopScreen it sends the library only
+ * sets width and height; id, x, y and flags are uninitialised stack bytes, printed as "uu" (as the model does) */
+static void do_api_extsize(char *args) {
+  rfbClient *c = g_cl; int w, h; size_t i, n0;
+  if (!c || sscanf(args, "%d %d", &w, &h) < 2) { printf("api none\n"); return; }
+  bb_reset(&g_ev); bb_reset(&g_out); n0 = g_out.n;
+  SendExtDesktopSize(c, (uint16_t)w, (uint16_t)h);
+  printf("api ev=["); fwrite(g_ev.p, 1, g_ev.n, stdout); printf("] sent=");
+  for (i = 0; i < g_out.n; i++) {
+    size_t k = i - n0;
+    int undef = g_out.n - n0 >= 24 && g_out.p[n0] == rfbSetDesktopSize && (k == 1 || k == 7 || (k >= 8 && k < 16) || (k >= 20 && k < 24));
+    if (undef) printf("uu"); else printf("%02x", g_out.p[i]);
+  }
+  printf("\n");
+  bb_reset(&g_ev); bb_reset(&g_out);
+}
 
 #ifdef VDRV_GUARD
 /* framebuffer with poisoned guard bands (ASan reports any access, however far from the buffer) */
@@ -333,7 +359,7 @@ static void do_hsraw(char *args) {
 #endif
   c->GotFrameBufferUpdate = cb_update; c->FinishedFrameBufferUpdate = cb_finished; c->Bell = cb_bell;
   c->GotXCutText = cb_cut; c->GotCursorShape = cb_cursor; c->HandleCursorPos = cb_pos; c->HandleKeyboardLedState = cb_led;
-  c->GetPassword = g_pw;
+  c->GetPassword = g_pw; c->GetCredential = g_cred;
   c->readTimeout = 0;
   g_fd = open("/dev/null", O_RDWR); c->sock = g_fd;
   n = parse_hex(bar, &p); bb_add(&g_in, p, n); free(p);
@@ -440,6 +466,17 @@ static void do_live(char *args) {
   if (!rfbClientInitialise(c)) { printf("live rc=0 init\n"); live_close(); return; }
   { rfbBool rc = live_until_finished(); bb_reset(&g_ev); live_compare("live", rc); if (!rc) live_close(); }
 }
+/* the application changes its encoding list in the middle of the session (SetFormatAndEncodings), then the screen changes */
+static void do_liveenc(char *args) {
+  static char enc2[256];
+  if (!g_live || !g_cl) { printf("liveenc none\n"); return; }
+  strncpy(enc2, args, sizeof enc2 - 1);
+  { size_t L = strlen(enc2); while (L && (enc2[L - 1] == '\n' || enc2[L - 1] == ' ')) enc2[--L] = 0; }
+  g_cl->appData.encodingsString = enc2;
+  if (!SetFormatAndEncodings(g_cl)) { printf("liveenc rc=0\n"); live_close(); return; }
+  live_pump();
+  printf("liveenc %s\n", enc2);
+}
 static void do_livemod(char *args) {
   unsigned seed; int n, i;
   if (!g_live || !g_cl || sscanf(args, "%u %d", &seed, &n) < 2) { printf("livemod none\n"); return; }
@@ -461,12 +498,14 @@ static void do_line(char *line) {
   if (!strncmp(line, "case ", 5)) live_close();
   if (!strncmp(line, "live ", 5)) { do_live(line + 5); fflush(stdout); return; }
   if (!strncmp(line, "livemod ", 8)) { do_livemod(line + 8); fflush(stdout); return; }
+  if (!strncmp(line, "liveenc ", 8)) { do_liveenc(line + 8); fflush(stdout); return; }
 #endif
   if (!strncmp(line, "case ", 5)) { drop_client(); printf("%s\n", line); fflush(stdout); return; }
   if (!strncmp(line, "init ", 5)) { do_init(line + 5); return; }
   if (!strncmp(line, "hsraw ", 6)) { do_hsraw(line + 6); return; }
   if (!strncmp(line, "fill ", 5)) { do_fill((unsigned)strtoul(line + 5, NULL, 10)); return; }
   if (!strncmp(line, "dump ", 5)) { g_dump = atoi(line + 5); printf("dump\n"); return; }
+  if (!strncmp(line, "api extsize ", 12)) { do_api_extsize(line + 12); return; }
   if (!strncmp(line, "fixed ", 6)) { printf("fixed\n"); return; }   /* tells the MODEL which proposed fixes the code under test contains */
   if (!strncmp(line, "b ", 2) || !strcmp(line, "b")) { unsigned char *p; size_t n = parse_hex(L > 2 ? line + 2 : "", &p); bb_add(&g_in, p, n); free(p); printf("b\n"); return; }
   if (!strncmp(line, "z ", 2)) {
